@@ -23,6 +23,7 @@ type Value struct {
 	changeTime time.Time
 
 	bus minibus.Bus
+	pub publishQueue // orders publications on bus to match commit order
 }
 
 func NewValue(opts ...Option) *Value {
@@ -60,6 +61,7 @@ func (r *Value) set(value proto.Message, request WriteRequest) (proto.Message, e
 		return nil, err
 	}
 
+	var ticket uint64
 	disarm := timeoutAlarm(time.Second, "GetAndUpdate took too long")
 	_, newValue, err := GetAndUpdate(
 		&r.mu,
@@ -70,6 +72,7 @@ func (r *Value) set(value proto.Message, request WriteRequest) (proto.Message, e
 		func(message proto.Message) {
 			r.value = message
 			r.changeTime = request.updateTime(r.clock)
+			ticket = r.pub.ticket()
 		},
 	)
 	disarm()
@@ -78,6 +81,8 @@ func (r *Value) set(value proto.Message, request WriteRequest) (proto.Message, e
 		return nil, err
 	}
 
+	r.pub.wait(ticket)
+	defer r.pub.done()
 	ctx, cancel := context.WithTimeout(context.TODO(), time.Second*5)
 	defer cancel()
 	simhook.Yield("value.publish")
